@@ -869,6 +869,19 @@ class Interp:
                     return r
             a = Aff.atom(("len", v.root, v.idx))
             st.facts.add(cmp_cond(">=", a, ZERO))
+            if not v.idx:
+                # an array allocated in this function with an explicit shape: its length is the first extent
+                org = self.allocs.get(v.root)
+                if org and org[0] == "alloc" and len(org) > 2 and org[2] and org[1] not in ("numpy.array", "numpy.zeros_like", "numpy.empty_like"):
+                    shp = org[2][0]
+                    first = shp.items[0] if isinstance(shp, Tup) and shp.items else (None if isinstance(shp, Tup) else shp)
+                    if first is not None:
+                        try:
+                            fv = self.scalar(st, first)
+                        except Exception:
+                            fv = None
+                        if isinstance(fv, Aff):
+                            st.facts.add(cmp_cond("==", a, fv))
             return a
         if isinstance(v, Aff):
             # a loop-carried array variable (summarised as one opaque value): its length is a function of that value
